@@ -181,7 +181,7 @@ inductive HOut where
 /-- the history loop of `syncLoop` (syncer.go:813-834); second component: the history entries
 that were asked, in order. -/
 def headerPhase (U : Univ) : List Nat → List HResp → HOut × List Nat
-  | [], _ => (.drop, [])                                       -- "no common history"
+  | [], _ => (.synced, [])                                     -- "no common history": the peer holds none of our sampled blocks (bootstrapped from a checkpoint above them); kept and left alone (repaired: it was dropped, and a checkpoint node could then never fetch from the node that dropped it)
   | id :: _, [] => (.drop, [id])                               -- the peer stopped answering
   | id :: hist, r :: rs =>
     match r with
@@ -256,6 +256,7 @@ def gateBatch (U : Univ) (cfg : Cfg) (req : Req) (r : BResp) : BDec :=
       if !cp.isV2 || !cp.onePayout then .retry                                     -- peer.go:173-174
       else if !sameId U cp.blk req.base then .retry                                -- peer.go:175-176
       else if !cp.commitOk then .retry                                             -- peer.go:177-178
+      else if !(U cp.blk).orphan then .retry                                       -- peer.go:179-185 (repair: ValidateOrphan on the supplied state; the payout value is covered neither by the ID nor by the commitment)
       else match r.blocks with
         | none => .retry                                                           -- :64-65
         | some bs =>
